@@ -376,7 +376,7 @@ def compare_direct(doc, cmodel, what):
     return n
 
 
-EDITS = ["param_value", "param_value", "retarget", "stoich_value", "add_ref", "remove_ref", "obj_type", "obj_coef", "strict", "reorder"]
+EDITS = ["param_value", "param_value", "retarget", "stoich_value", "add_ref", "add_dup_ref", "remove_ref", "obj_type", "obj_coef", "strict", "reorder"]
 
 
 @st.composite
@@ -451,6 +451,21 @@ def apply_edits(doc, edits):
             sr.setStoichiometry(2.0)
             sr.setConstant(True)
             n += 1
+        elif kind == "add_dup_ref":
+            # a second reference to a species the reaction already lists (a catalyst written on both sides, "x + x -> d"):
+            # valid SBML, the effective stoichiometry is the sum of the references
+            reac, prod = list(r.getListOfReactants()), list(r.getListOfProducts())
+            refs = reac + prod
+            if not refs:
+                continue
+            old = refs[j % len(refs)]
+            same_side = (i + j) % 2 == 0
+            on_reactants = (old in reac) == same_side
+            sr = r.createReactant() if on_reactants else r.createProduct()
+            sr.setSpecies(old.getSpecies())
+            sr.setStoichiometry(1.5 if same_side else 2 * abs(old.getStoichiometry()) + 1)  # the net coefficient stays non-zero
+            sr.setConstant(True)
+            n += 1
         elif kind == "remove_ref":
             if r.getNumReactants() + r.getNumProducts() <= 1:
                 continue
@@ -518,7 +533,7 @@ def check_third_party(case, ctx):
         fbc_doc = doc.getPlugin("fbc")
         encoding = "legacy" if fbc_doc is None else f"fbc-v{fbc_doc.getPackageVersion()}"
         classes.append(f"encoding-{encoding}")
-        edits = case["edits"] if encoding == "fbc-v2" else [e_ for e_ in case["edits"] if e_[0] in ("stoich_value", "add_ref", "remove_ref")]
+        edits = case["edits"] if encoding == "fbc-v2" else [e_ for e_ in case["edits"] if e_[0] in ("stoich_value", "add_ref", "add_dup_ref", "remove_ref")]
         n_eff = apply_edits(doc, edits)
         doc.checkInternalConsistency()
         if doc.getNumErrors(libsbml.LIBSBML_SEV_ERROR) or doc.getNumErrors(libsbml.LIBSBML_SEV_FATAL):
